@@ -14,7 +14,9 @@ def c12_cases(rng, n):
             ch = bytes([2, 0, 0x12, i & 255, k, rng.randrange(256)])
             flags = FLAGS[(i * 12 + k) % len(FLAGS)] if rng.random() < 0.8 else rng.randrange(65536)
             host = bytes(rng.randrange(32, 127) for _ in range(rng.choice([0, 3, 12, 63, 200]))).hex()
-            base = {"op": "dhcp", "chaddr": ch.hex(), "cid": (b"\x01" + ch).hex(), "host": host, "flags": flags}
+            # short and long replies in turn: the parameter list decides how many of the configured options come back
+            plist = [[1, 3, 51, 54], [1, 3, 6, 15, 28, 51, 54, 114, 119], [1, 51], [1, 3, 6, 15, 26, 28, 42, 51, 54, 114, 119, 121]][k % 4]
+            base = {"op": "dhcp", "chaddr": ch.hex(), "cid": (b"\x01" + ch).hex(), "host": host, "flags": flags, "plist": plist}
             steps.append(dict(base, mtype=1, tag="discover"))
             steps.append(dict(base, mtype=3, tag="request", req="offered", sid=[192, 0, 2, 1]))
         cases.append({"acls": None, "steps": steps})
